@@ -534,6 +534,9 @@ def invoke_subprocess(app, argv, cwd, step=None, locale=None, script_name=None):
     if locale == 'C':
         env.update({'LC_ALL': 'C', 'LANG': 'C', 'PYTHONUTF8': '0', 'PYTHONCOERCECLOCALE': '0'})
         del env['PYTHONIOENCODING']
+    elif locale in ('io-latin-1', 'io-ascii'):
+        # a UTF-8 locale, but the standard streams forced to an 8-bit / 7-bit encoding by the user (PYTHONIOENCODING without error handler)
+        env['PYTHONIOENCODING'] = locale[3:]
     py = sys.executable or os.path.join(_HERE, '.venv', 'bin', 'python')
     if script_name:
         cmd = [py, '-c', _SCRIPT, script_name] + list(argv)
